@@ -85,6 +85,18 @@ def run_solver(solver, path, timeout):
     return first, out, dt
 
 
+def _has_q(e, _seen=None):
+    seen = set() if _seen is None else _seen
+    stack = [e]
+    while stack:
+        x = stack.pop()
+        i = x.get_id()
+        if i in seen: continue
+        seen.add(i)
+        if z3.is_quantifier(x): return True
+        stack.extend(x.children())
+    return False
+
 def _inproc_check(args):
     """first attempt inside a pool worker (no process start-up): z3 5.1.0 library on the same SMT-LIB text"""
     txt, timeout_ms = args
@@ -121,6 +133,12 @@ class Portfolio:
             return
         try:
             ob.smt2 = ob.to_smt2()
+            ob.smt2_ground = None
+            if ob.kind == 'proof' and any(z3.is_quantifier(h) or _has_q(h) for h in ob.hyps):
+                # the same goal from the quantifier-free hypotheses only (sound: fewer hypotheses); decides vacuous and purely
+                # ground obligations without exposing the solver to instantiation loops
+                g = Obligation(ob.name, [h for h in ob.hyps if not _has_q(h)], ob.goal, 'proof')
+                ob.smt2_ground = g.to_smt2(want_model=False)
         except Exception as e:          # term construction problems are engine errors, not refutations
             ob.status, ob.answer, ob.output = 'unknown', 'error', 'export failed: %r' % e
             return
@@ -179,6 +197,13 @@ class Portfolio:
             import multiprocessing
             try:
                 with multiprocessing.get_context('fork').Pool(self.jobs) as pool:
+                    gr = [ob for ob in pending if getattr(ob, 'smt2_ground', None)]
+                    res0 = pool.map(_inproc_check, [(ob.smt2_ground, 800) for ob in gr], chunksize=4)
+                    for ob, (r, dt) in zip(gr, res0):
+                        self.solver_seconds += dt
+                        if r == 'unsat':
+                            ob.status, ob.answer, ob.solver, ob.seconds = 'discharged', r, 'z3-new(lib, ground hypotheses)', dt
+                    pending = [ob for ob in pending if ob.status is None]
                     res = pool.map(_inproc_check, [(ob.smt2, 1500) for ob in pending], chunksize=4)
                 for ob, (r, dt) in zip(pending, res):
                     self.solver_seconds += dt
